@@ -387,6 +387,17 @@ func genVisitWorkflow(rng *rand.Rand) *vWorkflow {
 		}
 		// job-level probes
 		var pre, post, steps []string
+		// strategy.fail-fast / max-parallel, with and without a matrix in the same strategy block
+		if rng.Intn(4) == 0 {
+			if mx == "N" {
+				b.add("    strategy:")
+			}
+			if rng.Intn(2) == 0 {
+				pre = append(pre, b.probeK("      fail-fast: ", g.expr(), "jobs.<job_id>.strategy", "b").sexp())
+			} else {
+				pre = append(pre, b.probeK("      max-parallel: ", g.expr(), "jobs.<job_id>.strategy", "(n,"+hx("integer value")+")").sexp())
+			}
+		}
 		if isCall {
 			if rng.Intn(2) == 0 {
 				pre = append(pre, b.probe("    name: ", g.expr(), "jobs.<job_id>.name").sexp())
@@ -436,8 +447,45 @@ func genVisitWorkflow(rng *rand.Rand) *vWorkflow {
 				pre = append(pre, b.probe("        password: ", g.expr(), "jobs.<job_id>.container.credentials").sexp())
 			}
 			pre = append(pre, b.probe("      options: ", g.expr(), "jobs.<job_id>.container").sexp())
+			if rng.Intn(2) == 0 {
+				b.add("      volumes:")
+				pre = append(pre, b.probe("        - ", g.expr(), "jobs.<job_id>.container").sexp())
+			}
+			if rng.Intn(2) == 0 {
+				b.add("      ports:")
+				pre = append(pre, b.probe("        - ", g.expr(), "jobs.<job_id>.container").sexp())
+			}
 			b.add("      env:")
 			pre = append(pre, b.probe("        A: ", g.expr(), "jobs.<job_id>.container.env.<env_id>").sexp())
+		}
+		if !isCall && rng.Intn(4) == 0 {
+			b.add("    services:")
+			b.add("      db:")
+			pre = append(pre, b.probe("        image: ", g.expr(), "jobs.<job_id>.services").sexp())
+			if rng.Intn(2) == 0 {
+				b.add("        credentials:")
+				pre = append(pre, b.probe("          username: ", g.expr(), "jobs.<job_id>.services.<service_id>.credentials").sexp())
+				b.add("          password: p")
+			}
+			if rng.Intn(2) == 0 {
+				b.add("        env:")
+				pre = append(pre, b.probe("          A: ", g.expr(), "jobs.<job_id>.services.<service_id>.env.<env_id>").sexp())
+			}
+			if rng.Intn(2) == 0 {
+				b.add("        ports:")
+				pre = append(pre, b.probe("          - ", g.expr(), "jobs.<job_id>.services").sexp())
+			}
+			if rng.Intn(2) == 0 {
+				pre = append(pre, b.probe("        options: ", g.expr(), "jobs.<job_id>.services").sexp())
+			}
+		}
+		if !isCall && rng.Intn(4) == 0 {
+			b.add("    defaults:")
+			b.add("      run:")
+			if rng.Intn(2) == 0 {
+				pre = append(pre, b.probe("        shell: ", g.expr(), "jobs.<job_id>.defaults.run").sexp())
+			}
+			pre = append(pre, b.probe("        working-directory: ", g.expr(), "jobs.<job_id>.defaults.run").sexp())
 		}
 		// outputs (values are checked in VisitJobPost, with all step ids in scope)
 		if len(pl.outputs) > 0 {
@@ -647,7 +695,7 @@ func visitTie(c *ctx, r *Report, n int, independence bool, judge func(cs Case) (
 		r.hist("tie:visit")
 		b.add("visitsrc "+w.sexp, canon, cs)
 	}
-	r.Rule += fmt.Sprintf("; workflow-level model tie: %d generated workflows (1–4 jobs with needs incl. unknown / re-cased / self references, declared outputs, 12 matrix shapes incl. expression rows / include / matrix and nested values, workflow_call / workflow_dispatch events in either order with inputs (defaults / descriptions that refer to other inputs) and secrets, run-name / env / concurrency at the top, steps with ids incl. placeholder ids and bundled actions, jobs that call a reusable workflow (with matrix / with / secrets), %d probes at job name / env / if / concurrency / container image, credentials, options, env / outputs / environment url / step run and github-script `script` (script positions: untrusted inputs reported), with, name, if, env, working-directory / workflow_call output values) through the real linter and the Lean model AL.Visit: the [expression] diagnostics on every probe line compared (codes with arguments)", n, nProbes)
+	r.Rule += fmt.Sprintf("; workflow-level model tie: %d generated workflows (1–4 jobs with needs incl. unknown / re-cased / self references, declared outputs, 12 matrix shapes incl. expression rows / include / matrix and nested values, workflow_call / workflow_dispatch events in either order with inputs (defaults / descriptions that refer to other inputs) and secrets, run-name / env / concurrency at the top, steps with ids incl. placeholder ids and bundled actions, jobs that call a reusable workflow (with matrix / with / secrets), %d probes at job name / env / if / concurrency / strategy fail-fast, max-parallel (with and without matrix) / container image, credentials, options, volumes, ports, env / services image, credentials, env, ports, options / defaults.run shell, working-directory / outputs / environment url / step run and github-script `script` (script positions: untrusted inputs reported), with, name, if, env, working-directory / workflow_call output values) through the real linter and the Lean model AL.Visit: the [expression] diagnostics on every probe line compared (codes with arguments)", n, nProbes)
 	_, err := b.flush(c, r)
 	return err
 }
